@@ -22,7 +22,7 @@ func VerifC10Ops() {
 	pickv := func(l string) string { return vars[vrt.Choice(l, nv)] }
 	x := lit()
 	p.steps("setup", false,
-		asg("mk3", fn(lst(ilit(1), ilit(2), ilit(3), nm("x")), "x")),          // constant prefix of 3, then computed
+		asg("mk3", fn(lst(ilit(1), ilit(2), ilit(3), nm("x")), "x")), // constant prefix of 3, then computed
 		asg("mk5", fn(lst(ilit(1), ilit(2), ilit(3), ilit(4), ilit(5), nm("x")), "x")),
 		asg("comp", fn(lst(nm("x"), bin("+", nm("x"), ilit(1)), bin("+", nm("x"), ilit(2))), "x")), // all computed
 		asg("cap", fn(blk(asg("l", lst(nm("x"), ilit(7), ilit(8))), fn(bin("+", nm("l"), lst(nm("q"))), "q")), "x")),
